@@ -233,7 +233,9 @@ def _crypto_curve(curve: str):
     return {"p256": ec.SECP256R1, "p384": ec.SECP384R1, "p521": ec.SECP521R1}[curve]()
 
 
-ECC_EDGE = ["lz-x", "lz-y", "lz-d", "d-small", "d-max"]
+# "x-NN": the first byte of X equals NN - the SEC1 point-format markers (02/03/04) and the DER SEQUENCE tag (30) are the
+# values a format-guessing parser may mistake for a prefix of the raw X||Y form
+ECC_EDGE = ["lz-x", "lz-y", "lz-d", "d-small", "d-max", "x-04", "x-02", "x-03", "x-30"]
 RSA_EDGE = ["lz-d", "lz-p"]
 
 
@@ -249,6 +251,20 @@ def make_ecc_edge(rng, curve: str, cls: str) -> dict:
         d = rng.randrange(1, 256)
     elif cls == "d-max":
         d = c.n - rng.randrange(1, 256)
+    elif cls.startswith("x-"):
+        want = int(cls[2:], 16)
+        if curve == "p521":  # the top byte of a P-521 coordinate is 00 or 01: use the second byte instead
+            shift = 8 * (c.size - 2)
+        else:
+            shift = 8 * (c.size - 1)
+        cobj = _crypto_curve(curve)
+        for _ in range(60000):
+            d = rng.randrange(1, c.n)
+            pn = ec.derive_private_key(d, cobj).public_key().public_numbers()  # fast search; confirmed below
+            if (pn.x >> shift) & 0xFF == want and (curve != "p521" or pn.x >> (shift + 8) == 0):
+                break
+        else:
+            raise core.Inconclusive(f"no {cls} key found for {curve}")
     else:
         cobj = _crypto_curve(curve)
         for _ in range(30000):
@@ -259,6 +275,8 @@ def make_ecc_edge(rng, curve: str, cls: str) -> dict:
         else:
             raise core.Inconclusive(f"no {cls} key found for {curve}")
     x, y = recdsa.pub_from_private(c, d)
+    if cls.startswith("x-") and (x >> (8 * (c.size - (2 if curve == "p521" else 1)))) & 0xFF != int(cls[2:], 16):
+        raise core.Inconclusive("edge key search and reference multiplication disagree")
     if cls in ("lz-x", "lz-y") and (x if cls == "lz-x" else y).bit_length() > tgt:
         raise core.Inconclusive("edge key search and reference multiplication disagree")
     return {"type": "ecc", "curve": curve, "x": x, "y": y, "d": d, "size": c.size, "kind": curve, "name": f"edge-{curve}-{cls}"}
